@@ -21,26 +21,67 @@ func checkUnitCLI(c UnitCase) pbt.Verdict {
 		pbt.Count("generated_units_rejected_by_shipped_parser", 1)
 		return pbt.Verdict{Skip: true}
 	}
-	if msg := judgeTextCLI(c.Text); msg != "" {
-		return pbt.Fail("%s\n--- unit ---\n%s", msg, c.Text)
+	if msg := judgeTextCLI(c); msg != "" {
+		return pbt.Fail("%s\n--- unit%s ---\n%s", msg, placeNote(c), c.Text)
 	}
-	return classify(c.Labels)
+	v := classify(c.Labels)
+	v.Classes = append(v.Classes, fmt.Sprintf("cli.optionSpelling%d", c.Cli%len(cliSpellings(""))))
+	return v
 }
 
-func judgeTextCLI(text string) string {
+// cliSpellings: the same five commands with the option spellings cobra accepts (-p v, -p=v, --path v, --path=v, a
+// relative path, a trailing slash) and with rarely used options that do not change what is observed here (api
+// --count --sort --remove --aggregate, todo --ext). The working directory is a sibling of src.
+func cliSpellings(src string) [][][]string {
+	return [][][]string{
+		{
+			{"analysis", "-p", src},
+			{"bs", "-p", src},
+			{"bs", "-p", src, "-s", "type", "-x", "dataClass,lazyElement"},
+			{"api", "-f", "-p", src},
+			{"todo", "-p", src},
+		},
+		{
+			{"analysis", "--path", src},
+			{"bs", "--path=" + src},
+			{"bs", "--path", src, "--sort", "type", "--ignore", "dataClass,lazyElement"},
+			{"api", "--force", "--path", src, "--count", "--sort", "--aggregate", "/nb"},
+			{"todo", "--path", src, "--ext", ".java"},
+		},
+		{
+			{"analysis", "-p=" + src, "--identify=true"},
+			{"bs", "-p=" + src},
+			{"bs", "-s=type", "-x=dataClass,lazyElement,longMethod,refusedBequest", "-p", src},
+			{"api", "-f", "-c", "-s", "-r", "zz.nb", "-p=" + src},
+			{"todo", "-e=.java,.py,.go", "-p=" + src},
+		},
+		{
+			{"analysis", "-p", "../src/"},
+			{"bs", "-p", "../src"},
+			{"bs", "-p", "../src/", "-s", "type", "-x", ""},
+			{"api", "-f", "-p", "../src", "-a", "/nb/ping/and/more", "-c"},
+			{"todo", "-p", "../src/"},
+		},
+	}
+}
+
+func judgeTextCLI(c UnitCase) string {
 	dir := cli.Scratch("c09cli-")
 	defer os.RemoveAll(dir)
 	src := filepath.Join(dir, "src")
 	cwd := filepath.Join(dir, "work")
 	_ = os.MkdirAll(cwd, 0755)
-	cli.WriteTree(src, map[string]string{nbFirstName: nbFirst, nbServiceName: nbService, unitName: text, nbLastName: nbLast})
-	for _, args := range [][]string{
-		{"analysis", "-p", src},
-		{"bs", "-p", src},
-		{"bs", "-p", src, "-s", "type", "-x", "dataClass,lazyElement"},
-		{"api", "-f", "-p", src},
-		{"todo", "-p", src},
-	} {
+	rel := c.Path
+	if rel == "" {
+		rel = unitName
+	}
+	files := map[string]string{nbFirstName: nbFirst, nbServiceName: nbService, rel: c.Text, nbLastName: nbLast}
+	if c.Twice {
+		files[unitTwinName] = c.Text
+	}
+	cli.WriteTree(src, files)
+	spellings := cliSpellings(src)
+	for _, args := range spellings[c.Cli%len(spellings)] {
 		shown := "`coca " + strings.ReplaceAll(strings.Join(args, " "), src, "DIR") + "`"
 		r, err := cli.Run("coca", cwd, nil, args...)
 		out := r.Stdout + r.Stderr
